@@ -148,7 +148,7 @@ theorem case_bin (hc : BaseCfg cfg) (t : Token) (l r : SE) (hw : (SE.bin t l r).
   have eR := wrapped hc r hw'.2 ihr (parenRight my r) my S1.next.next rest hr (by rw [hS2, hWR]) hfR hsR hsMy
   rw [hWR] at eR
   rw [eL, remaining_step _ p S1 (by rw [hpeek]; exact hsemi) (by rw [hpeek, hprec']; exact hfits.1)
-    (by rw [hpeek]; exact Or.inr ⟨hlp, hlb⟩),
+    (by rw [hpeek]; exact Or.inr ⟨hlp, hlb⟩) (by rw [hpeek]; exact Or.inr (binary_not_update t.type hw'.1.1)),
     infix_binary hc _ S1 (by rw [hpeek]; exact hw'.1.1), hpeek, hprec', eR]
   simp only [Option.bind_eq_bind, Option.bind_some]
   rw [htree]
@@ -162,8 +162,10 @@ theorem case_bin (hc : BaseCfg cfg) (t : Token) (l r : SE) (hw : (SE.bin t l r).
 
 theorem case_post (hc : BaseCfg cfg) (t : Token) (l : SE) (hw : (SE.post t l).wf = true) (ihl : Main cfg l) : Main cfg (.post t l) := by
   intro p st rest hr ht hf hs
-  have hw' : (lookup baseInfixFns t.type == some .postfix && l.wf) = true := by simpa [SE.wf] using hw
-  simp only [Bool.and_eq_true, beq_iff_eq] at hw'
+  have hw0 : (lookup baseInfixFns t.type == some .postfix && l.wf && !t.nl) = true := by simpa [SE.wf] using hw
+  simp only [Bool.and_eq_true, beq_iff_eq, Bool.not_eq_true'] at hw0
+  have hw' := hw0.1
+  have hnl : t.nl = false := hw0.2
   obtain ⟨hprec, hsemi, hlp, hlb⟩ := postfix_prec t.type hw'.1
   have hprec' : precOf cfg t.type = precPostfix := by rw [precOf_base hc]; exact hprec
   have hfits : p < precPostfix ∧ (parenPostfix l = true ∨ l.fits p) := hf
@@ -203,7 +205,7 @@ theorem case_post (hc : BaseCfg cfg) (t : Token) (l : SE) (hw : (SE.post t l).wf
   have hS1' : S1.toks = lastL :: t :: rest := hS1
   have hpeek : S1.peek = t := by rw [hrs] at hS1'; exact peek_of_toks hS1'
   rw [eL, remaining_step _ p S1 (by rw [hpeek]; exact hsemi) (by rw [hpeek, hprec']; exact hfits.1)
-    (by rw [hpeek]; exact Or.inr ⟨hlp, hlb⟩),
+    (by rw [hpeek]; exact Or.inr ⟨hlp, hlb⟩) (by rw [hpeek]; exact Or.inl hnl),
     infix_postfix hc _ S1 (by rw [hpeek]; exact hw'.1), hpeek]
   simp only [Option.bind_eq_bind, Option.bind_some]
   show parseRemaining cfg (SE.post t l).tree p _ = parseRemaining cfg (SE.post t l).tree p _
@@ -261,7 +263,7 @@ theorem case_call (hc : BaseCfg cfg) (t : Token) (f : SE) (args : SEList) (hw : 
   have e2 : parseExpressionList cfg .rparen S1.next = some (args.tree, nextK (args.toks.length + 1) S1.next) :=
     iha S1.next t rpT rest hr hS1n (Or.inl rfl)
   rw [eL, remaining_step _ p S1 (by rw [hpeek, hty]; decide) (by rw [hpeek, hty, precOf_lparen hc]; exact hfit.1)
-      (by rw [hpeek]; exact Or.inl hnl),
+      (by rw [hpeek]; exact Or.inl hnl) (by rw [hpeek]; exact Or.inl hnl),
     infix_call hc _ S1 (by rw [hpeek]; exact hty), e2]
   simp only [Option.bind_eq_bind, Option.bind_some, hpeek]
   show parseRemaining cfg (SE.call t f args).tree p _ = _
@@ -295,7 +297,7 @@ theorem case_dot (hc : BaseCfg cfg) (t : Token) (o : SE) (pr : Token) (hw : (SE.
     rw [peek_of_toks hS2, precOf_base hc]
     exact precOf_le_member _
   rw [eL, remaining_step _ p S1 (by rw [hpeek, hty]; decide) (by rw [hpeek, hty, precOf_dot hc]; exact hfit.1)
-      (by rw [hpeek, hty]; exact Or.inr ⟨by decide, by decide⟩),
+      (by rw [hpeek, hty]; exact Or.inr ⟨by decide, by decide⟩) (by rw [hpeek, hty]; exact Or.inr ⟨by decide, by decide⟩),
     infix_member hc _ S1 (by rw [hpeek]; exact hty), e2]
   simp only [Option.bind_eq_bind, Option.bind_some, hpeek]
   show parseRemaining cfg (SE.dot t o pr).tree p _ = _
@@ -332,7 +334,7 @@ theorem case_idx (hc : BaseCfg cfg) (t : Token) (o pe : SE) (hw : (SE.idx t o pe
       (true, (nextK (pe.toks.length - 1) S1.next.next).next) := by
     unfold expectToken; rw [hpk]; rfl
   rw [eL, remaining_step _ p S1 (by rw [hpeek, hty]; decide) (by rw [hpeek, hty, precOf_lbracket hc]; exact hfit.1)
-      (by rw [hpeek]; exact Or.inl hnl),
+      (by rw [hpeek]; exact Or.inl hnl) (by rw [hpeek]; exact Or.inl hnl),
     infix_index hc _ S1 (by rw [hpeek]; exact hty), e2]
   simp only [Option.bind_eq_bind, Option.bind_some, hpeek, hexp, if_true]
   show parseRemaining cfg (SE.idx t o pe).tree p _ = _
@@ -380,7 +382,7 @@ theorem case_asg (hc : BaseCfg cfg) (t : Token) (l v : SE) (hw : (SE.asg t l v).
   obtain ⟨S1, eL, hpeek, e2⟩ := assign_like hc t l v hwl hlev hwv ihl ihv
     p st rest hr (by rw [ht]; simp [SE.toks]) hfit.2 hs
   rw [eL, remaining_step _ p S1 (by rw [hpeek, hty]; decide) (by rw [hpeek, hty, precOf_assign hc]; exact hfit.1)
-      (by rw [hpeek, hty]; exact Or.inr ⟨by decide, by decide⟩),
+      (by rw [hpeek, hty]; exact Or.inr ⟨by decide, by decide⟩) (by rw [hpeek, hty]; exact Or.inr ⟨by decide, by decide⟩),
     infix_assign hc _ S1 (by rw [hpeek]; exact hty), e2]
   simp only [Option.bind_eq_bind, Option.bind_some, hpeek]
   simp [SE.tree, SE.toks]
@@ -402,7 +404,7 @@ theorem case_casg (hc : BaseCfg cfg) (t : Token) (l v : SE) (hw : (SE.casg t l v
   obtain ⟨S1, eL, hpeek, e2⟩ := assign_like hc t l v hwl hlev hwv ihl ihv
     p st rest hr (by rw [ht]; simp [SE.toks]) hfit.2 hs
   rw [eL, remaining_step _ p S1 (by rw [hpeek]; exact hsemi) (by rw [hpeek, hprec]; exact hfit.1)
-      (by rw [hpeek]; exact Or.inr hnp),
+      (by rw [hpeek]; exact Or.inr hnp) (by rw [hpeek]; rcases hty with h | h <;> rw [h] <;> exact Or.inr ⟨by decide, by decide⟩),
     infix_compound hc _ S1 (by rw [hpeek]; exact hty), e2]
   simp only [Option.bind_eq_bind, Option.bind_some, hpeek]
   simp [SE.tree, SE.toks]
